@@ -78,6 +78,7 @@ def check(rep, an, tier):
                 rep.check("R-TYPESTATE", "the integration is reached", bool(caps), where=res.fn.loc(), construct=f"calculate_capture in {meth}",
                           entry=entry, config=res.config)
     interpolation(rep, an)
+    stacking(rep, an)
     rep.require("R-TYPESTATE", 30)
     rep.require("R-FLOW", 8)
 
@@ -123,6 +124,7 @@ def interpolation(rep, an):
         rep.check("R-FLOW", "all interpolators evaluated on the same new domain", None if not calls else len(terms) == 1, where=res.fn.loc(),
                   construct="interpolator(new_domain)", entry=entry, config=res.config)
         R.rule_dtype_casts(rep, res, entry)
+        R.rule_every_iteration_reaches(rep, res, "interp1d", "the interpolation onto the common domain", entry, fn_name="_interpolate_domains")
         for tv in res.events("abs_tolerance"):
             at = tv.d.get("atol")
             if tv.d.get("dimensioned") and not (at is not None and at.known and at.const == 0):
@@ -133,6 +135,23 @@ def interpolation(rep, an):
                                  "un-interpolated on the first domain")
         order_invariance(rep, res, entry)
         grid_construction(rep, res, entry)
+
+
+def stacking(rep, an):
+    """stack / concatenate options: the arrays are handed to np.stack / np.concatenate as they are (no buffer with the first array's dtype)"""
+    entry = "equalize_domains"
+    for conc in (False, True):
+        d1, d2 = D.domain_val("dom1"), D.domain_val("dom2")
+        a1 = D.on(arr("arr1", S("M", "D@dom1"), U_SIGNAL), "dom1")
+        a2 = D.on(arr("arr2", S("M", "D@dom2"), U_SIGNAL), "dom2")
+        res = an.run("dreye.api.domain:equalize_domains",
+                     kws=dict(domains=Val(items=[d1, d2], tags={"kind": "list"}), arrs=Val(items=[a1, a2], tags={"kind": "list"}), axes=none(),
+                              stack_axis=const(0), concatenate=flag("concatenate", conc)), spec=D.hooks(), config=f"stack_axis=0,concatenate={conc}")
+        R.rule_dtype(rep, res, entry)
+        R.rule_dtype_casts(rep, res, entry)
+        calls = [ev for ev in res.events("ext_call") if ev.d["dotted"] in ("numpy.stack", "numpy.concatenate", "numpy.vstack", "numpy.hstack")]
+        rep.check("R-FLOW", "stacking is delegated to numpy (common result dtype)", True if calls else None, where=res.fn.loc(),
+                  construct=f"np.{'concatenate' if conc else 'stack'}(arrs, axis=stack_axis)", entry=entry, config=res.config)
 
 
 def order_invariance(rep, res, entry):
